@@ -104,8 +104,16 @@ def check_fused_equals_generic(ctx, rep, r1, r3=None):
                 for pv in r_.get('pushed') or []:
                     x = str(pv)
                     x = re.sub(r'pop#2|local\[operand#1\]', 'L', x)
-                    x = re.sub(r'pop#1|_\d+\[operand#2\]', 'R', x)
+                    x = re.sub(r'pop#1|_\d+(?:\.\*|\.f\d+)*\[operand#2\]', 'R', x)
                     x = re.sub(r'\b_\d+\b', '_', x)
+                    # `x?` and `match x { Ok(v) => v, Err(e) => return Err(e) }` name the same value: the Ok payload of x
+                    for _i in range(4):
+                        x2 = re.sub(r'^branch\((.*)\)\.Continue\.0$', r'ok(\1)', x)
+                        x2 = re.sub(r'^(.*)\.Ok\.0$', r'ok(\1)', x2)
+                        x2 = re.sub(r'^okval\((.*)\)$', r'ok(\1)', x2)
+                        if x2 == x:
+                            break
+                        x = x2
                     out_.add(x)
             return sorted(out_)
         fsh, gsh = pushed_shape(fused), pushed_shape(g)
@@ -226,7 +234,7 @@ def check_pool_by_value(ctx, rep, rule):
             if r['kind'] not in ('continue',):
                 continue
             def pooled(x):
-                for m_ in re.finditer(r'_(\d+)\[operand#\d+\]', str(x)):
+                for m_ in re.finditer(r'_(\d+)(?:\.\*|\.f\d+)*\[operand#\d+\]', str(x)):
                     ty_ = fnv.local_ty(int(m_.group(1))) or ''
                     if 'object::Object' in ty_ and ('[' in ty_ or 'Vec<' in ty_):
                         return m_.group(0)
@@ -234,7 +242,7 @@ def check_pool_by_value(ctx, rep, rule):
             leaks = []
             for pv in r.get('pushed') or []:
                 x = str(pv)
-                if pooled(x) and re.fullmatch(r'_\d+\[operand#\d+\]', x.strip()):
+                if pooled(x) and re.fullmatch(r'_\d+(?:\.\*|\.f\d+)*\[operand#\d+\]', x.strip()):
                     leaks.append('pushed as it is')
             for c in r['calls']:
                 if c['callee'].startswith('object::Object::') or c['callee'] in ('vm::VM::get_local',):
